@@ -1601,8 +1601,9 @@ impl<'comments> Formatter<'comments> {
                 UntypedExpr::Fn {
                     fn_style: FnStyle::Capture,
                     body,
+                    arguments,
                     ..
-                } => self.pipe_capture_right_hand_side(body),
+                } if arguments.len() == 1 => self.pipe_capture_right_hand_side(body),
 
                 _ => self.wrap_expr(expr),
             };
